@@ -15,7 +15,7 @@ import (
 
 func findMissingRules(c *Ctx) {
 	R := c.R
-	R.Rule("R10a", "E2", "found => nil-ed only on a sized hit: findMissingLocalCAS clears a digest only under (entry found and size not mismatching) or the empty-digest test; containsWorker clears it only when the backend answered true", 3)
+	R.Rule("R10a", "E2", "found => nil-ed only on a sized hit: findMissingLocalCAS clears a digest only under (entry found and size not mismatching) or the empty-digest test; containsWorker clears it only when the backend answered true with a size that does not mismatch the requested one", 4)
 	R.Rule("R10b", "E2", "oversize is never asked of the backend: the send on containsQueue is dominated by SizeBytes <= maxProxyBlobSize", 1)
 	R.Rule("R10c", "E5", "the whole list is processed: both slice expressions of the batching loop use the same bound, the loop runs while len(remaining) > 0", 2)
 	R.Rule("R10d", "E2+E5", "order-preserving compaction: filterNonNil is a single forward loop that copies each non-nil element unchanged to a write index that never passes the read index, and returns blobs[:count]", 1)
@@ -79,6 +79,9 @@ func findMissingRules(c *Ctx) {
 						if t, ok := base.LTerm(x, as.Lhs[0], s); ok {
 							s = s.Set("v:"+t, "contains")
 						}
+						if t, ok := base.LTerm(x, as.Lhs[1], s); ok {
+							s = s.Set("cwsize", t)
+						}
 					}
 				}
 				return []St{s}
@@ -94,6 +97,16 @@ func findMissingRules(c *Ctx) {
 							}
 						}
 						R.Check(good, "R10a", c.Cfg+"containsWorker:clear", c.P.Pos(as.Pos()), "the worker clears a digest only after proxy.Contains returned true", "the worker clears a digest without a positive backend answer", x.Trace()...)
+						sized := false
+						if sz := s.Get("cwsize"); sz != "" {
+							for k, v := range s.m {
+								if strings.HasPrefix(k, "p:disk.isSizeMismatch(") && strings.Contains(k, ".SizeBytes,"+sz+")") && v == "F" {
+									sized = true
+								}
+							}
+						}
+						R.Check(sized, "R10a", c.Cfg+"containsWorker:clear:sized", c.P.Pos(as.Pos()), "the worker clears a digest only when the size the backend reports does not mismatch the requested size (as Contains does)",
+							"the size reported by the backend is ignored: a digest (h, n') is reported present on the strength of a backend object (h, n)", x.Trace()...)
 					}
 				}
 				return s
